@@ -5,7 +5,7 @@
 //!
 //! One case line = one ring + set of precomputed strategies + one query, with all observed views:
 //!   Q <nodes> <ring> <pre> <strategy> <dc> <token> | <len> <iter> <nth> <choose> <cf> <ordered> <ep> <np>
-//! nodes     id.dc.rack,...         (hex; `_` = None)   peers in metadata order
+//! nodes     id.dc.rack.sharder,... (hex; `_` = None; sharder = <nr_shards>-<msb_ignore>)   peers in metadata order
 //! ring      token.id,...           (signed hex token)  ring entries in insertion order (peer by peer)
 //! pre       strategy;strategy...   keyspace strategies registered in the ClusterState (precomputed)
 //! strategy  S<rf> | N<dc>=<rf>+<dc>=<rf>.. | L | O
@@ -15,9 +15,17 @@
 //!           cf: choose_filtered with predicate "id is odd" (id or `_`)
 //!           into_replicas_ordered() (or `panic`)   ep: get_token_endpoints (or `x`)
 //!           np: into_iter() on a ClusterState built from the same peers with NO keyspaces
+//!           sh / osh: the shards yielded with into_iter() / into_replicas_ordered() (with_computed_shard)
+//!           hints: size_hint() before and after every operation of the three interleavings (lo:hi, upper `_` = None),
+//!                  ohint: size_hint() of the fresh ring-ordered iterator
+//! second kind (tablet-backed sets):
+//!   T <nodes> <ring> <tablets> <dc> <token> | <len> <iter> <nth> <choose> <ordered> <ops>
+//!   tablets  first:last:host.shard+host.shard;...  learnt in this order through the real update_tablets
+//!   iter/ordered  host:shard,...   ops  N,1,N,0,2,N with size_hint after each: host:shard@lo:hi
 //!           ops: three fixed interleavings of next() / nth(n) on one iterator each, `/`-separated
 //!                A = N,1,N,0,2,N   B = 0,0,N,3,N   C = N,N,5,N,0   (N = next, k = nth(k))
 use scylla::cluster::ClusterState;
+use scylla::cluster::verif_state::learn_tablet_from_payload;
 use scylla::frame::response::result::TableSpec;
 use scylla::routing::Token;
 use scylla::routing::verif_locator as vloc;
@@ -49,8 +57,90 @@ fn ids<'a>(it: impl Iterator<Item = (&'a std::sync::Arc<scylla::cluster::Node>, 
     hex_list(&v)
 }
 
+fn payload_bytes(a: i64, b: i64, raw: &[(u128, i32)]) -> Vec<u8> {
+    let mut v = Vec::new();
+    v.extend_from_slice(&8i32.to_be_bytes());
+    v.extend_from_slice(&a.to_be_bytes());
+    v.extend_from_slice(&8i32.to_be_bytes());
+    v.extend_from_slice(&b.to_be_bytes());
+    let mut l = Vec::new();
+    l.extend_from_slice(&(raw.len() as i32).to_be_bytes());
+    for (h, s) in raw {
+        let mut e = Vec::new();
+        e.extend_from_slice(&16i32.to_be_bytes());
+        e.extend_from_slice(&h.to_be_bytes());
+        e.extend_from_slice(&4i32.to_be_bytes());
+        e.extend_from_slice(&s.to_be_bytes());
+        l.extend_from_slice(&(e.len() as i32).to_be_bytes());
+        l.extend_from_slice(&e);
+    }
+    v.extend_from_slice(&(l.len() as i32).to_be_bytes());
+    v.extend_from_slice(&l);
+    v
+}
+
+fn run_tablet_case(cx: &mut Ctx, f: &[&str]) -> String {
+    let topo = parse_topo(f[1], f[2]);
+    install_sharders(&topo);
+    let mut cs = build(&cx.rt, &topo, &[]);
+    cx.key.clear();
+    for tb in f[3].split(';').filter(|x| !x.is_empty() && *x != "-") {
+        let p: Vec<&str> = tb.split(':').collect();
+        let (first, last) = (parse_i(p[0]), parse_i(p[1]));
+        let raw: Vec<(u128, i32)> = p[2]
+            .split('+')
+            .filter(|x| !x.is_empty() && *x != "-")
+            .map(|e| {
+                let (h, s) = e.split_once('.').unwrap();
+                (u128::from_str_radix(h, 16).unwrap(), i32::from_str_radix(s, 16).unwrap())
+            })
+            .collect();
+        // an accepted payload (a, b, ..) is the tablet [a+1, b]
+        let payload = std::collections::HashMap::from([(
+            "tablets-routing-v1".to_string(),
+            bytes::Bytes::from(payload_bytes(first - 1, last, &raw)),
+        )]);
+        if !learn_tablet_from_payload(&mut cs, "tks", "tt", &payload) {
+            return "error tablet-refused".into();
+        }
+    }
+    let dc_name = if f[4] == "_" { None } else { Some(format!("dc{}", u64::from_str_radix(f[4], 16).unwrap())) };
+    let dc = dc_name.as_deref();
+    let token = Token::new(parse_i(f[5]));
+    let table = TableSpec::borrowed("tks", "tt");
+    let strategy = scylla::cluster::metadata::Strategy::LocalStrategy;
+    let r = catch(AssertUnwindSafe(|| {
+        let loc = cs.replica_locator();
+        let rs = || loc.replicas_for_token(token, &strategy, dc, &table);
+        let t = |x: Option<(&std::sync::Arc<scylla::cluster::Node>, u32)>| match x {
+            Some((n, s)) => format!("{}:{}", hex_u(n.host_id.as_u128()), hex_u(s as u128)),
+            None => "_".into(),
+        };
+        let j = |v: Vec<String>| if v.is_empty() { "-".to_string() } else { v.join(",") };
+        let len = rs().len();
+        let iter = j(rs().into_iter().map(|x| t(Some(x))).collect());
+        let nth = j((0..len + 2).map(|k| t(rs().into_iter().nth(k))).collect());
+        let choose = j((0..len).map(|k| t(vloc::choose_filtered(rs(), vec![draw_for(k, len)], |_| true))).collect());
+        let ordered = j(rs().into_replicas_ordered().into_iter().map(|x| t(Some(x))).collect());
+        let mut it = rs().into_iter();
+        let ops = j([-1i32, 1, -1, 0, 2, -1]
+            .iter()
+            .map(|o| {
+                let x = if *o < 0 { it.next() } else { it.nth(*o as usize) };
+                let h = it.size_hint();
+                format!("{}@{}:{}", t(x), hex_u(h.0 as u128), h.1.map(|u| hex_u(u as u128)).unwrap_or("_".into()))
+            })
+            .collect());
+        format!("{} {} {} {} {} {}", hex_u(len as u128), iter, nth, choose, ordered, ops)
+    }));
+    r.unwrap_or_else(|_| "panic".into())
+}
+
 fn run_case(cx: &mut Ctx, case: &str) -> String {
     let f: Vec<&str> = case.split_whitespace().collect();
+    if f.len() == 6 && f[0] == "T" {
+        return run_tablet_case(cx, &f);
+    }
     if f.len() != 7 || f[0] != "Q" {
         return "error unknown-case".into();
     }
@@ -58,6 +148,7 @@ fn run_case(cx: &mut Ctx, case: &str) -> String {
     let pre: Vec<Strat> = if f[3] == "-" { vec![] } else { f[3].split(';').map(parse_strat).collect() };
     if cx.key != key {
         let topo = parse_topo(f[1], f[2]);
+        install_sharders(&topo);
         cx.with_pre = Some(build(&cx.rt, &topo, &pre));
         cx.without = Some(build(&cx.rt, &topo, &[]));
         cx.key = key;
@@ -76,6 +167,8 @@ fn run_case(cx: &mut Ctx, case: &str) -> String {
         let rs = || loc.replicas_for_token(token, &strategy, dc, &table);
         let len = rs().len();
         let iter = ids(rs().into_iter());
+        let shl = |v: Vec<u32>| if v.is_empty() { "-".to_string() } else { v.iter().map(|x| hex_u(*x as u128)).collect::<Vec<_>>().join(",") };
+        let sh = shl(rs().into_iter().map(|(_, s)| s).collect());
         let nth: Vec<String> = (0..len + 2)
             .map(|k| match rs().into_iter().nth(k) {
                 Some((n, _)) => hex_u(n.host_id.as_u128()),
@@ -97,6 +190,10 @@ fn run_case(cx: &mut Ctx, case: &str) -> String {
             Ok(s) => s,
             Err(_) => "panic".into(),
         };
+        let osh = match catch(AssertUnwindSafe(|| rs().into_replicas_ordered().into_iter().map(|(_, s)| s).collect::<Vec<u32>>())) {
+            Ok(v) => shl(v),
+            Err(_) => "panic".into(),
+        };
         // get_token_endpoints goes through the keyspace name; only possible for registered strategies
         let ep = if dc.is_some() {
             "x".to_string()
@@ -113,23 +210,31 @@ fn run_case(cx: &mut Ctx, case: &str) -> String {
         let np = ids(cs0.replica_locator().replicas_for_token(token, &strategy, dc, &table).into_iter());
         // next() and nth(n) interleaved on ONE iterator
         let seqs: [&[i32]; 3] = [&[-1, 1, -1, 0, 2, -1], &[0, 0, -1, 3, -1], &[-1, -1, 5, -1, 0]];
+        let hs = |h: (usize, Option<usize>)| format!("{}:{}", hex_u(h.0 as u128), h.1.map(|x| hex_u(x as u128)).unwrap_or("_".into()));
+        let mut hints: Vec<String> = Vec::new();
         let ops: Vec<String> = seqs
             .iter()
             .map(|sq| {
                 let mut it = rs().into_iter();
-                sq.iter()
+                let mut hv = vec![hs(it.size_hint())];
+                let r = sq
+                    .iter()
                     .map(|o| {
                         let x = if *o < 0 { it.next() } else { it.nth(*o as usize) };
+                        hv.push(hs(it.size_hint()));
                         match x {
                             Some((n, _)) => hex_u(n.host_id.as_u128()),
                             None => "_".into(),
                         }
                     })
                     .collect::<Vec<_>>()
-                    .join(",")
+                    .join(",");
+                hints.push(hv.join(","));
+                r
             })
             .collect();
-        format!("{} {} {} {} {} {} {} {} {}", hex_u(len as u128), iter, nth.join(","), choose, cf, ordered, ep, np, ops.join("/"))
+        let ohint = hs(rs().into_replicas_ordered().into_iter().size_hint());
+        format!("{} {} {} {} {} {} {} {} {} {} {} {} {}", hex_u(len as u128), iter, nth.join(","), choose, cf, ordered, ep, np, ops.join("/"), sh, osh, hints.join("/"), ohint)
     }));
     match r {
         Ok(s) => s,
@@ -192,6 +297,46 @@ fn main() {
         dcs.push(Some(ABSENT_DC));
         dcs.push(Some(2));
         dcs.dedup();
+        // tablet-backed sets on the same topology: a few tablets (some overlapping, some naming an
+        // unknown host), tokens inside, at the borders of and between them
+        if !topo.ring.is_empty() {
+            let ids: Vec<u64> = topo.nodes.iter().map(|n| n.0).collect();
+            let mut tabs = Vec::new();
+            let mut spans: Vec<(i64, i64)> = Vec::new();
+            let mut lo: i64 = -60;
+            for _ in 0..r.range(1, 4) {
+                let first = lo + r.range(0, 6) as i64 - if r.chance(1, 5) { 8 } else { 0 };
+                let last = first + r.range(0, 25) as i64;
+                lo = last + 1;
+                spans.push((first, last));
+                let mut reps = Vec::new();
+                let lo_n = if r.chance(1, 8) { 0 } else { 1 };
+                for _ in 0..r.range(lo_n, 5) {
+                    let h = if r.chance(1, 12) { 77 } else { *r.pick(&ids) };
+                    reps.push(format!("{}.{}", hex_u(h as u128), hex_u(r.below(9) as u128)));
+                }
+                tabs.push(format!("{}:{}:{}", hex_i(first as i128), hex_i(last as i128), if reps.is_empty() { "-".to_string() } else { reps.join("+") }));
+            }
+            let tabs_s = tabs.join(";");
+            let mut tdcs: Vec<Option<u64>> = vec![None];
+            for d in ring_dcs(&topo) {
+                tdcs.push(Some(d));
+            }
+            tdcs.push(Some(ABSENT_DC));
+            for d in &tdcs {
+                for _ in 0..(if thorough { 12 } else { 4 }) {
+                    let tk = if r.chance(3, 4) {
+                        let (a, b) = *r.pick(&spans);
+                        *r.pick(&[a, b, a + (b - a) / 2, a - 1, b + 1])
+                    } else {
+                        r.range(0, 130) as i64 - 70
+                    };
+                    let c = format!("T {} {} {} {} {}", ns, rs, tabs_s, opt_s(d), hex_i(tk as i128));
+                    let o = run_case(&mut cx, &c);
+                    out.case(&c, &o);
+                }
+            }
+        }
         for q in &queries {
             for d in &dcs {
                 // the unrestricted query always; restricted ones sampled in the quick tier
